@@ -103,11 +103,14 @@ CLAIMED["C04"] = {
 
 CLAIMED["C05"] = {
     "text": "parent() is proved for all inputs (lowest PID -> None; Process(ppid) unless that PID now belongs to a "
-            "younger process or vanished). children()/children(recursive=True) are checked by a bounded enumeration of "
+            "younger process or vanished). children() (non-recursive) is proved for every pid->ppid snapshot (symbolic map "
+            "with a ghost key sequence, loop invariant: the result is the fold 'listed pids whose recorded parent is this "
+            "process, other than itself, still there and not a zombie when looked at, not older than the caller'). "
+            "children()/children(recursive=True) are also checked by a bounded enumeration of "
             "every parent-link graph over four PIDs (forests, self-loops, cycles, unlisted parents) x start-time "
             "orderings, with children vanishing right after the snapshot, against a reference closure; termination is "
             "watched by an alarm (labelled bounded).",
-    "note": "the graph walk is not proved (symbolic defaultdict/set/stack manipulation is outside the VC generator); "
+    "note": "the recursive graph walk is not proved (symbolic defaultdict/set/stack manipulation is outside the VC generator); "
             "parents() termination not claimed.",
     "ref": "DESIGN.md section 5 (C05)",
     "category": "proof",
